@@ -54,13 +54,18 @@ def _same_defs(fl, name, n1, n2):
 
 
 def r1_pipeline(program, rep):
+    """The wiring of the stages, on value terms: which value each stage is
+    handed (the result of which other stage, which argument of the wrapper),
+    whatever the locals are called."""
     for fname, table_fn in (("place_and_route_wrapper",
                              "routing_tree_to_tables"),
                             ("wrapper", "build_routing_tables")):
         fn = program.get("%s:%s" % (WR, fname))
         inst = qual(fn)
-        fl = Flow(fn)
-        cfg = fl.cfg
+        T = Terms(fn)
+        cfg = T.cfg
+        ps = formals(fn)
+        P = lambda n: ("param", n)      # noqa: E731
 
         def one(name):
             cs = [c for c in calls_in(fn, name)
@@ -68,42 +73,26 @@ def r1_pipeline(program, rep):
             if len(cs) != 1:
                 raise AnalysisError("%s: expected one call of %s" % (fname,
                                                                     name))
-            return cs[0], cfg.node_containing(cs[0])
-        cp, np_ = one("place")
-        ca, na = one("allocate")
-        cr, nr = one("route")
-        cm, nm = one("build_application_map")
-        ct, nt = one(table_fn)
+            n_ = cfg.node_containing(cs[0])
+            return cs[0], n_, T.term(cs[0], n_), [T.term(a_, n_)
+                                                  for a_ in cs[0].args]
+        cp, np_, PLACED, ap = one("place")
+        ca, na, ALLOC, aa = one("allocate")
+        cr, nr, ROUTES, ar = one("route")
+        cm, nm, AMAP, am_ = one("build_application_map")
+        ct, nt, TABLES, at = one(table_fn)
 
-        def result_var(call):
-            p = call._parent
-            if isinstance(p, ast.Assign) and len(p.targets) == 1:
-                return chain(p.targets[0])
-            return None
-        pv, av, rv, mv, tv = [result_var(c) for c in (cp, ca, cr, cm, ct)]
-        ok = None not in (pv, av, rv, mv, tv)
-        rep.check(ok, "C01-R1", inst, "every stage's result is kept",
-                  construct="stage results", node=fn)
-        if not ok:
-            continue
-
-        def arg(call, i):
-            return chain(call.args[i]) if len(call.args) > i else None
-
-        def from_stage(name, node, stage_node):
-            ds = fl.reaching(name, node)
-            return len(ds) == 1 and ds[0].node is stage_node
-        ok = arg(ca, 4) == pv and from_stage(pv, na, np_) and \
-            arg(cr, 4) == pv and from_stage(pv, nr, np_) and \
-            arg(cm, 1) == pv and from_stage(pv, nm, np_)
+        def arg(a, i):
+            return a[i] if len(a) > i else None
+        ok = arg(aa, 4) == PLACED and arg(ar, 4) == PLACED and \
+            arg(am_, 1) == PLACED
         rep.check(ok, "C01-R1", inst, "the placement returned by place() is "
                   "the placement given to allocate(), route() and "
                   "build_application_map()", construct="placements flow",
                   node=fn,
                   fail="allocate / route / build_application_map do not all "
                        "receive the very placement place() returned")
-        ok = arg(cr, 5) == av and from_stage(av, nr, na) and \
-            arg(cm, 2) == av and from_stage(av, nm, na)
+        ok = arg(ar, 5) == ALLOC and arg(am_, 2) == ALLOC
         rep.check(ok, "C01-R1", inst, "the allocation returned by "
                   "allocate() is the one given to route() (core routes) and "
                   "build_application_map() (cores loaded)",
@@ -111,29 +100,26 @@ def r1_pipeline(program, rep):
                   fail="route() and build_application_map() do not both "
                        "receive the allocation allocate() returned: cores "
                        "routed to and cores loaded can differ")
-        ok = arg(ct, 0) == rv and from_stage(rv, nt, nr) and \
-            arg(ct, 1) == formals(fn)[3]
+        ok = arg(at, 0) == ROUTES and arg(at, 1) == P(ps[3])
         rep.check(ok, "C01-R1", inst, "the trees returned by route() and "
                   "the caller's net_keys feed the table generator",
                   construct="routes flow", node=fn)
-        # one machine, one constraint list
-        ok = all(arg(c, 2) == "machine" and arg(c, 3) == "constraints" and
-                 arg(c, 0) == formals(fn)[0] and arg(c, 1) == formals(fn)[2]
-                 for c in (cp, ca, cr)) and \
-            _same_defs(fl, "machine", np_, na) and \
-            _same_defs(fl, "machine", np_, nr) and \
-            _same_defs(fl, "constraints", np_, na) and \
-            _same_defs(fl, "constraints", np_, nr)
+        # one graph, one machine, one constraint list
+        ok = all(arg(a, 0) == P(ps[0]) and arg(a, 1) == P(ps[2])
+                 for a in (ap, aa, ar)) and \
+            arg(ap, 2) is not None and \
+            arg(ap, 2) == arg(aa, 2) == arg(ar, 2) and \
+            arg(ap, 3) is not None and \
+            arg(ap, 3) == arg(aa, 3) == arg(ar, 3)
         rep.check(ok, "C01-R1", inst, "place, allocate and route all work on "
                   "the same graph, the same machine and the same (augmented) "
                   "constraint list", construct="shared inputs", node=fn,
                   fail="the three stages do not receive one and the same "
                        "machine / constraint list: a reservation can bind "
                        "the placer but not the allocator")
-        cres = [p for p in formals(fn) if p == "core_resource"]
-        ok = bool(cres) and arg(cr, 6) == "core_resource" and \
-            arg(cm, 3) == "core_resource" and \
-            arg(cm, 0) == formals(fn)[1]
+        CRES = P("core_resource")
+        ok = "core_resource" in ps and arg(ar, 6) == CRES and \
+            arg(am_, 3) == CRES and arg(am_, 0) == P(ps[1])
         rep.check(ok, "C01-R1", inst, "the caller's core resource selects "
                   "both the cores routed to and the cores loaded; "
                   "vertices_applications feeds the application map",
@@ -141,64 +127,56 @@ def r1_pipeline(program, rep):
         rets = returns_of(fn)
         ok = len(rets) == 1 and isinstance(rets[0].value, ast.Tuple)
         if ok:
-            names = [chain(e) for e in rets[0].value.elts]
             rn = cfg.node_of(rets[0])
-            ok = names[:3] == [pv, av, mv] and len(names) == 4 and \
-                from_stage(pv, rn, np_) and from_stage(av, rn, na) and \
-                from_stage(mv, rn, nm)
-            # tables returned: the (minimised) final tables
-            tds = fl.reaching(names[3], rn)
-            if fname == "place_and_route_wrapper":
-                cmin, nmin = one("minimise_tables")
-                ok = ok and len(tds) == 1 and tds[0].node is nmin and \
-                    arg(cmin, 0) == tv and from_stage(tv, nmin, nt) and \
-                    arg(cmin, 2) == "minimise_tables_methods"
-                tl = arg(cmin, 1)
-                tld = fl.reaching(tl, nmin) if tl else []
-                ok = ok and len(tld) == 1 and unparse(tld[0].value) == \
-                    "build_routing_table_target_lengths(%s)" % \
-                    formals(fn)[4]
-            else:
-                ok = ok and len(tds) == 1 and tds[0].node is nt
+            rt = [T.term(e, rn) for e in rets[0].value.elts]
+            ok = len(rt) == 4 and rt[:3] == [PLACED, ALLOC, AMAP]
+            if ok and fname == "place_and_route_wrapper":
+                cmin, nmin, MIN, amin = one("minimise_tables")
+                TL = ("callv", ("global",
+                                "build_routing_table_target_lengths"),
+                      (P(ps[4]),), ())
+                ok = rt[3] == MIN and arg(amin, 0) == TABLES and \
+                    arg(amin, 2) == P("minimise_tables_methods") and \
+                    arg(amin, 1) is not None and \
+                    plain(arg(amin, 1)) == plain(TL)
+            elif ok:
+                ok = rt[3] == TABLES
         rep.check(ok, "C01-R1", inst, "returns (placements, allocations, "
                   "application_map, routing_tables) - the final "
                   "(minimised) tables", construct="result tuple", node=fn,
                   fail="the returned 4-tuple is not (placements, "
                        "allocations, application_map, final routing "
                        "tables) of this run")
-    rep.floor("C01-R1", 14)
+    rep.floor("C01-R1", 12)
 
 
 def r2_description(program, rep):
     fn = program.get(WR + ":place_and_route_wrapper")
     inst = qual(fn)
-    fl = Flow(fn)
-    si = formals(fn)[4]
-    bm = calls_in(fn, "build_machine")
-    bc = calls_in(fn, "build_core_constraints")
-    ok = len(bm) == 1 and len(bc) == 1 and chain(bm[0].args[0]) == si and \
-        chain(bc[0].args[0]) == si
-    if ok:
-        kw = {k.arg: chain(k.value) for k in bm[0].keywords}
-        ok = kw == {"core_resource": "core_resource",
-                    "sdram_resource": "sdram_resource",
-                    "sram_resource": "sram_resource"} and \
-            chain(bc[0].args[1]) == "core_resource"
-        md = fl.reaching("machine", fl.cfg.node_containing(
-            calls_in(fn, "place")[0]))
-        ok = ok and len(md) == 1 and md[0].value is bm[0]
+    T = Terms(fn)
+    ps = formals(fn)
+    P = lambda n: ("param", n)      # noqa: E731
+    SI = P(ps[4])
+    pl = [c for c in calls_in(fn, "place") if isinstance(c.func, ast.Name)]
+    if len(pl) != 1:
+        raise AnalysisError("place_and_route_wrapper: one place() call")
+    n = T.cfg.node_containing(pl[0])
+    MACH = plain(T.term(pl[0].args[2], n)) if len(pl[0].args) > 3 else None
+    CONS = plain(T.term(pl[0].args[3], n)) if len(pl[0].args) > 3 else None
+    ok = MACH is not None and MACH[0] == "call" and \
+        MACH[1] == ("global", "build_machine") and MACH[2] == (SI,) and \
+        dict(MACH[3]) == {"core_resource": P("core_resource"),
+                          "sdram_resource": P("sdram_resource"),
+                          "sram_resource": P("sram_resource")}
+    BUSY = ("call", ("global", "build_core_constraints"),
+            (SI, P("core_resource")), ())
     rep.check(ok, "C01-R2", inst, "the machine model and the busy-core "
               "reservations are both derived from the caller's system_info "
               "with the caller's resource identifiers",
               construct="model sources", node=fn)
-    cd = [d for d in fl.defs if d.var == "constraints" and
-          d.mode == "assign"]
-    ok = len(cd) == 1 and isinstance(cd[0].value, ast.BinOp) and \
-        isinstance(cd[0].value.op, ast.Add)
-    if ok:
-        sides = [chain(cd[0].value.left), chain(cd[0].value.right)]
-        bv = chain(bc[0]._parent.targets[0]) if bc else None
-        ok = sorted(sides) == sorted([bv, "constraints"])
+    ok = CONS is not None and CONS[0] == "binop" and CONS[1] == "Add" and \
+        sorted([CONS[2], CONS[3]], key=repr) == sorted(
+            [BUSY, P("constraints")], key=repr)
     rep.check(ok, "C01-R2", inst, "the reservations of busy cores are added "
               "to the caller's constraints before any stage runs",
               construct="constraints augmented", node=fn,
@@ -206,13 +184,23 @@ def r2_description(program, rep):
                    "the constraint list the stages receive: vertices can "
                    "be put on cores that are in use")
     fn2 = program.get(WR + ":wrapper")
-    f2 = Flow(fn2)
-    t = unparse(fn2)
-    ok = "constraints = constraints[:]" in t and \
-        "constraints.append(ReserveResourceConstraint(core_resource, " \
-        "slice(0, 1)))" in t and \
-        "constraints.append(AlignResourceConstraint(sdram_resource, 4))" \
-        in t
+    T2 = Terms(fn2)
+    pl2 = [c for c in calls_in(fn2, "place") if isinstance(c.func, ast.Name)]
+    if len(pl2) != 1 or len(pl2[0].args) < 4:
+        raise AnalysisError("wrapper: one place() call")
+    n2 = T2.cfg.node_containing(pl2[0])
+    C2 = T2.term(pl2[0].args[3], n2)
+    N_ = ("const", None)
+    ok = plain(C2) == ("item", P("constraints"), ("slice", N_, N_, N_))
+    from ..terms import method_calls as _mc
+    apps = [plain(x[3][0]) for x in _mc(T2, "append")
+            if x[2] == C2 and len(x[3]) == 1]
+    want = [("call", ("global", "ReserveResourceConstraint"),
+             (P("core_resource"), ("call", ("global", "slice"),
+                                   (("const", 0), ("const", 1)), ())), ()),
+            ("call", ("global", "AlignResourceConstraint"),
+             (P("sdram_resource"), ("const", 4)), ())]
+    ok = ok and all(w in apps for w in want)
     rep.check(ok, "C01-R2", qual(fn2), "the old wrapper reserves the "
               "monitor core and word-aligns SDRAM on a copy of the "
               "caller's constraints", construct="old wrapper constraints",
